@@ -94,16 +94,37 @@ theorem getLinPayload_src (pre p post : Bytes) (hmem : (pre ++ p ++ post).length
         payload_isValid_src]
       rfl
 
-theorem getCmPayload_src (pre p post : Bytes) :
-    TECMP_Decoder_GetCaptureModulePayload_obj (pre ++ p ++ post) pre.length p.length =
-      some (if p.length < 18 then none else some ⟨p, 256⟩) := by
-  unfold TECMP_Decoder_GetCaptureModulePayload_obj
+/-- the vendor data length a payload object declares: the big-endian u16 at offset 4 of its own bytes -/
+theorem cm_vendorLen_src (p : Bytes) (n : Nat) (h : 6 ≤ p.length) :
+    TECMP_CaptureModulePayload_getVendorDataLength p 0 n 0 = some (beAt p 4 2) := by
+  unfold TECMP_CaptureModulePayload_getVendorDataLength TECMP_CaptureModulePayload_getHeader_v
+    TECMP_CaptureModulePayload_Header_getVendorDataLength
+  simp (disch := omega) only [rd_eq, swap16_leAt, bind, some_bind, pure, Nat.zero_add]
+
+theorem if_vendorLen_src (p : Bytes) (n : Nat) (h : 6 ≤ p.length) :
+    TECMP_InterfacePayload_getVendorDataLength p 0 n 0 = some (beAt p 4 2) := by
+  unfold TECMP_InterfacePayload_getVendorDataLength TECMP_InterfacePayload_getHeader_v
+    TECMP_InterfacePayload_Header_getVendorDataLength
+  simp (disch := omega) only [rd_eq, swap16_leAt, bind, some_bind, pure, Nat.zero_add]
+
+/-- what `GetCaptureModulePayload` returns: null unless the fields read later (bytes 8..17) are there AND the declared vendor
+    data (u16 @4, starting behind the 12 generic bytes) lies inside the payload -/
+def cmR (p : Bytes) : Option TECMP_Payload_St :=
+  if p.length < 18 ∨ p.length - 12 < beAt p 4 2 then none else some ⟨p, 256⟩
+
+theorem getCmPayload_src (pre p post : Bytes) (hmem : (pre ++ p ++ post).length < 2 ^ 64) :
+    TECMP_Decoder_GetCaptureModulePayload_obj (pre ++ p ++ post) pre.length p.length = some (cmR p) := by
+  have hb := mem_lt pre p post hmem
+  unfold TECMP_Decoder_GetCaptureModulePayload_obj cmR
   by_cases h : p.length < 18
-  · simp only [h, decide_true, if_true, pure]
+  · simp only [h, decide_true, if_true, pure, true_or]
   · simp only [h, decide_false, Bool.false_eq_true, if_false, TECMP_CaptureModulePayload_ctor_ptr_u64_obj,
       TECMP_PayloadType_ctor_u32_obj, bind, pure, some_bind, payload_ctor_src pre p post 256 (by decide),
-      payload_isValid_src]
-    rfl
+      payload_isValid_src, cm_vendorLen_src p p.length (by omega), usub_eq p.length 12 (by omega) hb, false_or]
+    by_cases hv : p.length - 12 < beAt p 4 2
+    · simp only [hv, decide_true, if_true]
+    · simp only [hv, decide_false, Bool.false_eq_true, if_false]
+      rfl
 
 /-! ### `GetDataPayload`: dispatch on the header's data type, then the re-check of message type and payload type -/
 
@@ -142,14 +163,16 @@ theorem getDataPayload_src (pre p post H : Bytes) (hmem : (pre ++ p ++ post).len
     · have hl : (beAt H 6 2 == 4) = false := by simpa using hlin
       simp only [hl, hlin, Bool.false_eq_true, if_false, ite_self]
 
-/-! ### `GetInterfacePayload`: 12 generic bytes, then one payload object per complete 12-byte entry -/
+/-! ### `GetInterfacePayload`: 12 generic bytes, then one payload object per complete entry of 12 + vendor-data-length bytes -/
 
-/-- the object built for the entry at offset `off`: generic bytes, the entry, the four vendor-data bytes of the default object -/
+/-- the object built for the entry at offset `off`: generic bytes, the entry's 12 counter bytes, the four vendor-data bytes of the
+    default object (the entry's own vendor data is skipped, not copied) -/
 def busObj (p : Bytes) (off : Nat) : TECMP_Payload_St := ⟨p.take 12 ++ slice p off 12 ++ zeros 4, 512⟩
 
-def busPl (p : Bytes) : Nat → Nat → List (Option TECMP_Payload_St)
+/-- entries of `12 + v` bytes from offset `off` on -/
+def busPl (p : Bytes) (v : Nat) : Nat → Nat → List (Option TECMP_Payload_St)
   | 0, _ => []
-  | n + 1, off => if off + 12 ≤ p.length then some (busObj p off) :: busPl p n (off + 12) else []
+  | n + 1, off => if off + (12 + v) ≤ p.length then some (busObj p off) :: busPl p v n (off + (12 + v)) else []
 
 theorem setGenericData_src (pre p post : Bytes) (h12 : 12 ≤ p.length) :
     TECMP_InterfacePayload_setGenericData (zeros 28) 0 28 0 ((pre ++ p ++ post).drop pre.length) = some (p.take 12 ++ zeros 16) := by
@@ -186,10 +209,11 @@ theorem setBusData_src (pre p post : Bytes) (off : Nat) (h12 : 12 ≤ p.length) 
     (by simp only [List.length_append, hl, zeros_length]; omega)]
   simp only [some_bind, hx, writeAt_gen _ _ hl hs]
 
-theorem bus_loop (pre p post H : Bytes) (hmem : p.length + 12 < 2 ^ 64) (h12 : 12 ≤ p.length) :
-    ∀ (n off : Nat) (acc : List (Option TECMP_Payload_St)) (fuel : Nat), n ≤ fuel → off ≤ p.length → p.length < off + 12 * n →
+theorem bus_loop (pre p post H : Bytes) (v : Nat) (hmem : p.length + 12 + v < 2 ^ 64) (h12 : 12 ≤ p.length) :
+    ∀ (n off : Nat) (acc : List (Option TECMP_Payload_St)) (fuel : Nat), n ≤ fuel → off ≤ p.length →
+      p.length < off + (12 + v) * n →
       ∃ off', TECMP_Decoder_GetInterfacePayload_loop1 fuel (pre ++ p ++ post) pre.length p.length H acc
-          ⟨p.take 12 ++ zeros 16, 512⟩ off = some (acc ++ busPl p n off, off') := by
+          ⟨p.take 12 ++ zeros 16, 512⟩ off (12 + v) = some (acc ++ busPl p v n off, off') := by
   intro n
   induction n with
   | zero => intro off acc fuel _ h1 h2; omega
@@ -197,36 +221,52 @@ theorem bus_loop (pre p post H : Bytes) (hmem : p.length + 12 < 2 ^ 64) (h12 : 1
     intro off acc fuel hf h1 h2
     obtain ⟨f, rfl⟩ : ∃ f, fuel = f + 1 := ⟨fuel - 1, by omega⟩
     rw [TECMP_Decoder_GetInterfacePayload_loop1]
-    simp only [uadd_eq off 12 (by omega), busPl]
-    by_cases hc : off + 12 ≤ p.length
-    · obtain ⟨off', hoff⟩ := ih (off + 12) (acc ++ [some (busObj p off)]) f (by omega) hc (by omega)
+    simp only [uadd_eq off (12 + v) (by omega), busPl]
+    by_cases hc : off + (12 + v) ≤ p.length
+    · rw [Nat.mul_succ] at h2
+      obtain ⟨off', hoff⟩ := ih (off + (12 + v)) (acc ++ [some (busObj p off)]) f (by omega) hc (by omega)
       refine ⟨off', ?_⟩
-      simp only [hc, decide_true, if_true, bind, pure, setBusData_src pre p post off h12 hc, some_bind]
+      simp only [hc, decide_true, if_true, bind, pure, setBusData_src pre p post off h12 (by omega), some_bind]
       rw [show (⟨p.take 12 ++ slice p off 12 ++ zeros 4, 512⟩ : TECMP_Payload_St) = busObj p off from rfl, hoff,
         List.append_assoc]
       rfl
     · exact ⟨off, by simp only [hc, decide_false, Bool.false_eq_true, if_false, pure, List.append_nil]⟩
 
-def busR (p : Bytes) : List (Option TECMP_Payload_St) := if p.length < 12 then [] else busPl p (p.length / 12 + 1) 12
+def busR (p : Bytes) : List (Option TECMP_Payload_St) :=
+  if p.length < 12 then [] else busPl p (beAt p 4 2) (p.length / 12 + 1) 12
 
-theorem getInterfacePayload_src (pre p post H : Bytes) (fuel : Nat) (hmem : p.length + 12 < 2 ^ 64) (hH : 28 ≤ H.length)
-    (hmt : byteAt H 5 = 2) (hf : p.length / 12 + 1 ≤ fuel) :
+theorem beAt_gen (p z : Bytes) (h12 : 12 ≤ p.length) : beAt (p.take 12 ++ z) 4 2 = beAt p 4 2 := by
+  unfold beAt slice
+  rw [List.drop_append_of_le_length (by simp only [List.length_take]; omega),
+    List.take_append_of_le_length (by simp only [List.length_drop, List.length_take]; omega),
+    List.drop_take, List.take_take]
+  congr 1
+
+/-- `hmem`: the loop computes `busDataOffset + entrySize` in `size_t`; the sum stays below 2^64 exactly when the payload size plus
+    one entry (12 + declared vendor data length) does -/
+theorem getInterfacePayload_src (pre p post H : Bytes) (fuel : Nat) (hmem : p.length + 12 + beAt p 4 2 < 2 ^ 64)
+    (hH : 28 ≤ H.length) (hmt : byteAt H 5 = 2) (hf : p.length / 12 + 1 ≤ fuel) :
     TECMP_Decoder_GetInterfacePayload_obj fuel (pre ++ p ++ post) pre.length p.length H = some (busR p) := by
   unfold TECMP_Decoder_GetInterfacePayload_obj busR
   simp only [hdr_messageType H hH, hmt, bind, pure, some_bind, bne_self_eq_false, Bool.false_eq_true, if_false]
   by_cases h : p.length < 12
   · simp only [h, decide_true, if_true]
   · have h12 : 12 ≤ p.length := by omega
-    obtain ⟨off', hl⟩ := bus_loop pre p post H hmem h12 (p.length / 12 + 1) 12 [] fuel hf h12 (by omega)
+    have hmul : 12 * (p.length / 12 + 1) ≤ (12 + beAt p 4 2) * (p.length / 12 + 1) := Nat.mul_le_mul_right _ (by omega)
+    obtain ⟨off', hl⟩ := bus_loop pre p post H (beAt p 4 2) hmem h12 (p.length / 12 + 1) 12 [] fuel hf h12 (by omega)
+    have hvl : TECMP_InterfacePayload_getVendorDataLength (p.take 12 ++ zeros 16) 0 (p.take 12 ++ zeros 16).length 0 =
+        some (beAt p 4 2) := by
+      rw [if_vendorLen_src _ _ (by simp only [List.length_append, List.length_take, zeros_length]; omega), beAt_gen p _ h12]
     simp only [h, decide_false, Bool.false_eq_true, if_false, TECMP_InterfacePayload_ctor_v_obj, TECMP_PayloadType_ctor_u32_obj,
-      TECMP_Payload_ctor_rec_u64_obj, bind, pure, some_bind, zeros_length, setGenericData_src pre p post h12]
+      TECMP_Payload_ctor_rec_u64_obj, bind, pure, some_bind, zeros_length, setGenericData_src pre p post h12, hvl,
+      uadd_eq 12 (beAt p 4 2) (by omega)]
     rw [hl]
     rfl
 
 /-! ### `HandlePayload` -/
 
 def handleR (H p : Bytes) : List (Option TECMP_Payload_St) :=
-  if byteAt H 5 = 1 then (if p.length < 18 then [] else [some ⟨p, 256⟩])
+  if byteAt H 5 = 1 then (match cmR p with | none => [] | some x => [some x])
   else if byteAt H 5 = 3 then (match dataR H p with | none => [] | some x => [some x])
   else if byteAt H 5 = 2 then busR p
   else []
@@ -236,16 +276,20 @@ theorem dataR_cases (H p : Bytes) : dataR H p = none ∨ dataR H p = some ⟨p, 
   repeat' split
   all_goals simp
 
+theorem cmR_cases (p : Bytes) : cmR p = none ∨ cmR p = some ⟨p, 256⟩ := by
+  unfold cmR
+  split <;> simp
+
 theorem handlePayload_src (pre p post H : Bytes) (fuel : Nat) (hmem : (pre ++ p ++ post).length < 2 ^ 64)
-    (hp12 : p.length + 12 < 2 ^ 64) (hH : 28 ≤ H.length) (hf : p.length / 12 + 1 ≤ fuel) :
+    (hp12 : byteAt H 5 = 2 → p.length + 12 + beAt p 4 2 < 2 ^ 64) (hH : 28 ≤ H.length) (hf : p.length / 12 + 1 ≤ fuel) :
     TECMP_Decoder_HandlePayload_obj fuel (pre ++ p ++ post) pre.length p.length H = some (handleR H p) := by
   unfold TECMP_Decoder_HandlePayload_obj handleR
   simp only [hdr_messageType H hH, bind, pure, some_bind]
   by_cases h1 : byteAt H 5 = 1
-  · simp only [h1, beq_self_eq_true, if_true, getCmPayload_src, some_bind]
-    by_cases h : p.length < 18
-    · simp only [h, if_true, Option.isSome_none, Bool.false_eq_true, if_false, some_bind]
-    · simp only [h, if_false, Option.isSome_some, if_true, some_bind, payload_mt_src p 256 (by omega), bind, pure]
+  · simp only [h1, beq_self_eq_true, if_true, getCmPayload_src pre p post hmem, some_bind]
+    rcases cmR_cases p with hd | hd
+    · simp only [hd, Option.isSome_none, Bool.false_eq_true, if_false, some_bind]
+    · simp only [hd, Option.isSome_some, if_true, some_bind, payload_mt_src p 256 (by omega), bind, pure]
       rfl
   · have e1 : (byteAt H 5 == 1) = false := by simpa using h1
     simp only [e1, h1, Bool.false_eq_true, if_false]
@@ -261,7 +305,7 @@ theorem handlePayload_src (pre p post H : Bytes) (fuel : Nat) (hmem : (pre ++ p 
       simp only [e3, h3, Bool.false_eq_true, if_false]
       by_cases h2 : byteAt H 5 = 2
       · have e2 : (byteAt H 5 == 2) = true := by simpa using h2
-        simp only [e2, if_true, getInterfacePayload_src pre p post H fuel hp12 hH h2 hf, some_bind]
+        simp only [e2, if_true, getInterfacePayload_src pre p post H fuel (hp12 h2) hH h2 hf, some_bind]
         simp only [h2, if_true]
       · have e2 : (byteAt H 5 == 2) = false := by simpa using h2
         simp only [e2, h2, Bool.false_eq_true, if_false, ite_self]
